@@ -79,6 +79,10 @@ def check_packet(run, case):
     except Exception as e:  # noqa
         run.violation('build-raised:%s:%s' % (framing, k), case, repr(e))
         return False
+    if framing == 'binary' and 'binary-delimiter-in-body' not in regs and any(b in (0x7B, 0x7D) for b in pkt[1:-1]):
+        # the frame as actually built (its PDU may differ from the spec PDU by a C01 finding) holds a delimiter byte
+        regs.append('binary-delimiter-in-body')
+        run.region('binary-delimiter-in-body')
     encode_known = any(s in regs for s in ('fifo-count', 'filerecord-subresponse-layout'))
     want = ADU.build(framing, uid, pdu, tid=tid, pid=pid)
     if framing == 'binary':
